@@ -18,7 +18,7 @@ from harness import core, learners as L, xlearner as X
 
 MODULES = ["AdaptiveProofs.Props.C09"]
 KINDS = ["l1d", "l1d_curv", "l1d_vec", "l1d_tri", "lnd2", "lnd3", "avg", "avg1d", "seq", "integ",
-         "bal:l1d", "bal:seq", "bal:avg", "bal:lnd2", "ds:l1d", "ds:seq", "ds:lnd2"]
+         "bal:l1d", "bal:seq", "bal:avg", "bal:lnd2", "bal:cycle:l1d", "bal:cycle:seq", "bal:npoints:avg", "bal:loss:l1d", "ds:l1d", "ds:seq", "ds:lnd2"]
 
 
 def obs(kn, l):
@@ -134,7 +134,7 @@ def run(ctx):
     return core.conclude(
         ctx, proof, [], failures,
         rule="twin histories (asks, out-of-order tells, unsuggested points, re-tells, explicit pending marks, discards, batched tells) "
-             "for 17 learner kinds incl. Balancing and DataSaver wrappers; twin A receives ask(n, False) twice before ~35% of the ops; "
+             "for 21 learner kinds incl. Balancing and DataSaver wrappers; twin A receives ask(n, False) twice before ~35% of the ops; "
              "non-trivial = (kind, seed) history in which A received at least one extra non-committing ask",
         samples=[list(a) for a in args[:3]],
         evaluations=nextra, distinct=sum(1 for r in results if r["extra"] > 0),
